@@ -34,6 +34,8 @@ WITH THE SOFTWARE OR THE USE OR OTHER DEALINGS IN THE SOFTWARE.
 #include <pterms/PtStructs.h>
 #include <symbols/SymRef.h>
 
+#include <atomic>
+
 namespace opensmt {
 
 struct ERef {
@@ -75,7 +77,7 @@ class EnodeAllocator;
 class Enode final
 {
 private:
-    static uint32_t cgid_ctr;
+    static std::atomic<uint32_t> cgid_ctr; // shared by all Egraph instances of the process
 
     ERef    root;           // The root of this enode's equivalence class
     cgId    cid;            // The congruence id of the enode (never changes)
